@@ -1,5 +1,234 @@
-"""Plugin attachment (layout strings, sequences); filled in as the engine grows."""
+"""Engine plug-ins: symbolic-length sequences (z3 Seq) and ghost output files."""
+import ast
+from fractions import Fraction
+
+import z3
+
+from . import api, sym
+from .engine import Plugin
+from .interp import FStr
+from .sym import PBuiltin, PList, PObj, PyRaise, Unsupported, b_and, is_sym, simp
+
+
+class SymSeq:
+    """Symbolic-length sequence of scalars (z3 Seq of Real or Int)."""
+
+    __slots__ = ("t", "kind")
+
+    def __init__(self, t, kind):
+        self.t = t
+        self.kind = kind
+
+    def __repr__(self):
+        return f"SymSeq({self.t})"
+
+
+class SymRange:
+    def __init__(self, a, b, c):
+        self.a, self.b, self.c = a, b, c
+
+
+def _sort(kind):
+    return z3.RealSort() if kind == "Real" else z3.IntSort()
+
+
+def _elem(v, kind):
+    return sym.zreal(v) if kind == "Real" else sym.zterm(v)
+
+
+def to_seq(I, v, kind=None):
+    if isinstance(v, SymSeq):
+        return v
+    if isinstance(v, (PList, tuple, list)):
+        items = v.items if isinstance(v, PList) else list(v)
+        kind = kind or ("Int" if items and all(sym.is_intlike(x) for x in items) else "Real")
+        if not items:
+            return SymSeq(z3.Empty(z3.SeqSort(_sort(kind))), kind)
+        units = [z3.Unit(_elem(x, kind)) for x in items]
+        return SymSeq(z3.Concat(*units) if len(units) > 1 else units[0], kind)
+    raise Unsupported(f"cannot view {type(v).__name__} as a sequence")
+
+
+class SeqPlugin(Plugin):
+    def __init__(self, ctx):
+        self.ctx = ctx
+
+    # ---- creation / model
+    def make(self, ctx, desc, name):
+        if isinstance(desc, api.SeqOf):
+            kind = desc.elem.kind
+            c = z3.Const(name, z3.SeqSort(_sort(kind)))
+            return SymSeq(c, kind), ("seqsym", c, kind)
+        if isinstance(desc, api.OutFile):
+            o = PObj("OutFile", label=name)
+            o.fields["nums"] = SymSeq(z3.Empty(z3.SeqSort(z3.RealSort())), "Real")
+            o.fields["chunks"] = PList([])
+            return o, ("outfile", name)
+        return NotImplemented
+
+    def conc(self, ctx, rec, model):
+        if rec[0] == "seqsym":
+            ent = model.get(str(rec[1]))
+            if ent is None:
+                return []
+            tag, v = ent
+            if tag == "Seq":
+                return [({"$real": f"{x.numerator}/{x.denominator}"} if rec[2] == "Real" else {"$int": int(x)})
+                        for x in v]
+            return []
+        if rec[0] == "outfile":
+            return {"$native": "outfile", "$id": rec[1]}
+        return NotImplemented
+
+    def desc_like(self, ctx, v, name):
+        if isinstance(v, SymSeq):
+            return api.SeqOf(api.Real if v.kind == "Real" else api.Int)
+        return NotImplemented
+
+    # ---- operations
+    def len(self, I, x):
+        if isinstance(x, SymSeq):
+            return z3.Length(x.t)
+        return NotImplemented
+
+    def seq_len(self, I, it):
+        if isinstance(it, SymSeq):
+            return z3.Length(it.t)
+        if isinstance(it, SymRange):
+            n = self.ctx.fresh("trip", "Int")
+            a, b, c = (sym.zterm(x) for x in (it.a, it.b, it.c))
+            self.ctx.assume(n >= 0)
+            if isinstance(it.c, int) and it.c > 0:
+                self.ctx.assume(z3.If(a >= b, n == 0, z3.And(a + (n - 1) * c < b, a + n * c >= b)))
+            else:
+                raise Unsupported("symbolic range with non-positive/symbolic step")
+            return n
+        return NotImplemented
+
+    def getitem(self, I, obj, idx, node):
+        if isinstance(obj, SymRange):
+            return sym.num_add(obj.a, sym.num_mul(idx, obj.c))
+        if not isinstance(obj, SymSeq):
+            return NotImplemented
+        n = z3.Length(obj.t)
+        if isinstance(idx, tuple) and len(idx) == 4 and idx[0] == "slice":
+            _, lo, hi, step = idx
+            if step is not None:
+                raise Unsupported("slice step on symbolic sequence")
+            lo = 0 if lo is None else lo
+            hi = n if hi is None else hi
+            for b in (lo, hi):
+                if self.ctx.branch(sym.num_cmp("<", b, 0), node):
+                    raise Unsupported("negative slice bound on symbolic sequence")
+            zlo, zhi = sym.zterm(lo), sym.zterm(hi)
+            clo = z3.If(zlo > n, n, zlo)
+            chi = z3.If(zhi > n, n, zhi)
+            ln = z3.If(chi > clo, chi - clo, 0)
+            return SymSeq(z3.SubSeq(obj.t, clo, ln), obj.kind)
+        if not sym.is_intlike(idx):
+            raise PyRaise("TypeError", "sequence index must be int")
+        zi = sym.zterm(idx)
+        if self.ctx.branch(simp(z3.Or(zi >= n, zi < -n)), node):
+            raise PyRaise("IndexError", "list index out of range")
+        if self.ctx.branch(simp(zi < 0), node):
+            zi = zi + n
+        return obj.t[zi]
+
+    def iterate(self, I, it, node):
+        if isinstance(it, SymRange):
+            raise Unsupported("iteration over a symbolic range needs a loop contract")
+        if not isinstance(it, SymSeq):
+            return None
+        n = z3.Length(it.t)
+        for k in range(0, 13):
+            if self.ctx.branch(simp(n == k), node):
+                return [it.t[i] for i in range(k)]
+        raise Unsupported("iteration over a symbolic sequence longer than 12 needs a loop contract")
+
+    def eq(self, I, a, b):
+        if isinstance(a, SymSeq) or isinstance(b, SymSeq):
+            try:
+                kind = a.kind if isinstance(a, SymSeq) else b.kind
+                sa, sb = to_seq(I, a, kind), to_seq(I, b, kind)
+            except Unsupported:
+                return False
+            return simp(sa.t == sb.t)
+        return NotImplemented
+
+    def binop(self, I, op, a, b, node):
+        if isinstance(op, ast.Add) and (isinstance(a, SymSeq) or isinstance(b, SymSeq)):
+            kind = a.kind if isinstance(a, SymSeq) else b.kind
+            sa, sb = to_seq(I, a, kind), to_seq(I, b, kind)
+            return SymSeq(z3.Concat(sa.t, sb.t), kind)
+        return NotImplemented
+
+    def getattr(self, I, obj, name, node):
+        if isinstance(obj, PObj) and obj.clsname == "OutFile" and name == "write":
+            return PBuiltin("write", _file_write, obj)
+        return NotImplemented
+
+    def special_call(self, I, e, fr, nm):
+        if nm == "file_nums":
+            f = I.eval(e.args[0], fr)
+            return f.fields["nums"]
+        if nm == "file_text":
+            f = I.eval(e.args[0], fr)
+            return f.fields["chunks"]
+        if nm == "seq":
+            return to_seq(I, I.eval(e.args[0], fr), "Real")
+        return NotImplemented
+
+    def range_sym(self, a, b, c):
+        return SymRange(a, b, c)
+
+
+def _nums_of(parts):
+    """Numeric tokens of a written chunk, in order (literal text is tokenised on white space)."""
+    out = []
+    prev_open = False  # previous part ended in the middle of a token
+    for p in parts:
+        if isinstance(p, str):
+            if not p:
+                continue
+            toks = p.split()
+            if prev_open and not p[0].isspace():
+                raise Unsupported("formatted value glued to literal text in a write")
+            for t in toks:
+                try:
+                    out.append(Fraction(t))
+                except (ValueError, ZeroDivisionError):
+                    try:
+                        out.append(Fraction(repr(float(t))))
+                    except ValueError:
+                        pass
+            prev_open = not p[-1].isspace()
+        else:
+            if prev_open:
+                raise Unsupported("formatted value glued to literal text in a write")
+            out.append(p[1])
+            prev_open = True
+    return out
+
+
+def _file_write(I, f, s):
+    parts = [s] if isinstance(s, str) else (s.parts if isinstance(s, FStr) else None)
+    if parts is None:
+        raise Unsupported(f"write of {type(s).__name__}")
+    f.fields["chunks"].items.append(s)
+    # a write that starts in the middle of the previous write's last token would merge two values
+    last_open = f.fields.get("open", False)
+    first = parts[0] if parts else ""
+    if last_open and parts and not (isinstance(first, str) and first[:1].isspace()):
+        raise Unsupported("two writes glue tokens together (no separator between them)")
+    lastp = parts[-1] if parts else ""
+    f.fields["open"] = bool(parts) and not (isinstance(lastp, str) and lastp[-1:].isspace())
+    nums = _nums_of(parts)
+    if nums:
+        cur = f.fields["nums"]
+        add = to_seq(I, PList(nums), "Real")
+        f.fields["nums"] = SymSeq(z3.Concat(cur.t, add.t), "Real")
+    return None
 
 
 def attach(ctx):
-    return
+    ctx.plugins.append(SeqPlugin(ctx))
